@@ -32,9 +32,12 @@ Front(s) == SubSeq(s, 1, Len(s) - 1)
 (* registered first; astk: the activations' identifiers (na: counter).         *)
 (* ev: log of defer events.  nd: defer id counter.                             *)
 (* recd: set by a successful recover, read by the unwinding step.              *)
+(* tr: trace of the identified print statements executed (<<"p", id>>) and of   *)
+(* the calls of f (<<"c">>), in execution order: what a debugger with line and  *)
+(* function breakpoints is expected to report (C19).                            *)
 St0 == [cells |-> <<1, 2, 3, 4, 5, 6>>, out |-> <<>>, status |-> "ok", pval |-> 0,
         dstk |-> <<>>, astk |-> <<>>, na |-> 0, ev |-> <<>>, nd |-> 0, recd |-> FALSE,
-        fuel |-> Fuel, depth |-> 0]
+        fuel |-> Fuel, depth |-> 0, tr |-> <<>>]
 
 \* globals live in the first cells: g0 g1 (ints), t.a t.b (struct t), arr[0] arr[1]
 Env0 == [g0 |-> 1, g1 |-> 2, ta |-> 3, tb |-> 4, a0 |-> 5, a1 |-> 6]
@@ -245,7 +248,8 @@ RunBody(P, body, env, st, ctx) ==
 CallFn(P, f, args, st) ==
     LET F    == P.funcs[f]
         pc   == NewId(st)
-        st1  == Alloc(Alloc(Alloc(st, args[1]), 0), 0)      \* p, r, q
+        st0  == IF f = "f" THEN [st EXCEPT !.tr = Append(@, <<"c">>)] ELSE st
+        st1  == Alloc(Alloc(Alloc(st0, args[1]), 0), 0)      \* p, r, q
         env  == Bind(Bind(Bind(Env0, "p", pc), "r", pc + 1), "q", pc + 2)
         b    == RunBody(P, F.body, env, st1, [direct |-> FALSE, ret |-> "r", pv |-> 0])
     IN [vs |-> <<b.st.cells[pc + 1], b.st.cells[pc + 2]>>, st |-> b.st]
@@ -346,7 +350,8 @@ ExecS(P, s, env, st0, ctx) ==
       [] s.k = "print" ->
             \* every print statement carries an identifier, so that each output line names
             \* the statement that produced it (C19 derives the expected breakpoint hits from it)
-            LET v == EvalE(P, s.e, env, st) IN R(env, IF Ok(v.st) THEN Emit1(v.st, <<"p", s.id, v.v>>) ELSE v.st)
+            LET v == EvalE(P, s.e, env, st) IN
+            R(env, IF Ok(v.st) THEN [Emit1(v.st, <<"p", s.id, v.v>>) EXCEPT !.tr = Append(@, <<"p", s.id>>)] ELSE v.st)
       [] s.k = "printg" ->    \* all globals
             R(env, Emit1(st, <<"g", st.cells[1], st.cells[2], st.cells[3], st.cells[4], st.cells[5], st.cells[6]>>))
       [] s.k \in {"discard", "blankcall"} ->   \* CALL as a statement:  f(e) / c()  or  _ = c()
@@ -748,5 +753,5 @@ SessionRun(P) ==
 Run(P) ==
     LET b == RunBody(P, P.main, Env0, St0, [direct |-> FALSE, ret |-> "$none", pv |-> 0]) IN
     [out |-> b.st.out, status |-> b.st.status, pval |-> b.st.pval, ev |-> b.st.ev,
-     globals |-> SubSeq(b.st.cells, 1, 6), steps |-> Fuel - b.st.fuel]
+     globals |-> SubSeq(b.st.cells, 1, 6), steps |-> Fuel - b.st.fuel, tr |-> b.st.tr]
 ===============================================================================
